@@ -27,7 +27,7 @@ func capsInbound(c *Ctx, seed uint64, cfg bedConfig, variant int) (cases []strin
 		return nil
 	}
 	defer sc.cleanup()
-	m := cfg.MaxIn
+	m := max(cfg.MaxIn, 0) // a cap below zero admits nobody
 
 	checkCap := func(what string) {
 		in, _ := sc.tb.peersByDir()
@@ -92,7 +92,7 @@ func capsInbound(c *Ctx, seed uint64, cfg bedConfig, variant int) (cases []strin
 		cases = append(cases, sc.coqCase(tr, in, out, live, false))
 	}
 	c.Res.Eval(fmt.Sprintf("caps-in|%+v|%s", cfg, strings.Join(sc.steps, "|")), refused > 0)
-	c.Res.Count(fmt.Sprintf("caps:max-inbound=%d", m))
+	c.Res.Count(fmt.Sprintf("caps:max-inbound=%d", cfg.MaxIn))
 	c.Res.CountN("caps:refused-connections", refused)
 	report(c, "caps-inbound", seed, cfg, variant, sc.steps, sc.fails)
 	return cases
